@@ -12,6 +12,7 @@
 #
 # The object stem is taken from the `-o <target>` argument (basename without extension);
 # a command line without `-c` is a link step and is logged with mode LINK.
+# Only bash builtins are used besides the compiler (and sleep), to keep the wrapper cheap.
 real="${FCWRAP_REAL:-gfortran}"
 target=""
 mode="LINK"
@@ -21,17 +22,23 @@ for a in "$@"; do
   if [ "$a" = "-c" ]; then mode="COMPILE"; fi
   prev="$a"
 done
-stem="$(basename "${target:-unknown}")"
+stem="${target:-unknown}"
+stem="${stem##*/}"
 stem="${stem%.*}"
 log="${FCWRAP_LOG:-/dev/null}"
-echo "START $(date +%s%N) $$ $stem - $mode" >> "$log"
+t="$EPOCHREALTIME"; t="${t/./}"; t="${t/,/}"
+echo "START ${t}000 $$ $stem - $mode" >> "$log"
 if [ -n "$FCWRAP_PLAN" ] && [ -r "$FCWRAP_PLAN" ] && [ "$mode" = "COMPILE" ]; then
-  ms="$(awk -v s="$stem" '$1==s {print $2; exit}' "$FCWRAP_PLAN")"
-  if [ -n "$ms" ] && [ "$ms" -gt 0 ] 2>/dev/null; then
-    sleep "$(awk -v m="$ms" 'BEGIN{printf "%.3f", m/1000}')"
-  fi
+  while read -r s ms; do
+    if [ "$s" = "$stem" ] && [ -n "$ms" ] && [ "$ms" -gt 0 ] 2>/dev/null; then
+      printf -v secs '%d.%03d' $((ms / 1000)) $((ms % 1000))
+      sleep "$secs"
+      break
+    fi
+  done < "$FCWRAP_PLAN"
 fi
 "$real" "$@"
 rc=$?
-echo "END $(date +%s%N) $$ $stem $rc $mode" >> "$log"
+t="$EPOCHREALTIME"; t="${t/./}"; t="${t/,/}"
+echo "END ${t}000 $$ $stem $rc $mode" >> "$log"
 exit $rc
